@@ -14,6 +14,12 @@ Events:  ('S', sender, msg, flags, big)  a task calls session._send_message(<bod
                      unsent); p=1: it stays so - if anything was written the close stays pending
                      (is_closing() true, connection_lost not delivered) until L / an abort /
                      a later `G 0`; p=0: the peer consumes everything first, the close completes.
+         ('X', flags, acts)  acts = tuple of ('S', sender, msg, big) / ('P',) / ('R',) performed
+                     back to back WITHOUT running the loop in between (a new sender's task is
+                     created = runnable, pause_writing()/resume_writing() are called); only then
+                     does the loop run to idle.  So a sender made runnable before a resume runs
+                     BEFORE the writers that resume woke, and a pause that follows a resume clears
+                     the event before any woken writer has run.  Text: `X f S.s.m,R,P` (B.s.m big)
 flags = high-water script: one bool per transport.write() call that happens in this step; True =
 the transport calls pause_writing() from inside that write().
 
@@ -35,9 +41,10 @@ MAXDELAY = 20
 FORCE_AFTER = 100000
 RULE = ('case = sequence of <=14 events over {send of a small or a big (150-300 KB framed) message '
         'by one of 4 senders, pause, resume, link lost, time passes, cancel the sender of message '
-        'k, graceful close with/without unsent data} with a scripted high-water policy (the '
+        'k, graceful close with/without unsent data, batches of sends/pauses/resumes performed '
+        'back to back before the loop runs again} with a scripted high-water policy (the '
         'transport may re-pause inside any write call), on RSTransport and USTransport, '
-        'max_send_delay=20; exhaustive over all event sequences up to the stated length from two '
+        'max_send_delay=20; exhaustive over all event sequences up to the stated length from three '
         'alphabets (both transports for length <= 3, alternating above) + seeded random longer '
         'ones; non-trivial = at least one sender was blocked; distinct = distinct (transport '
         'kind, event list)')
@@ -196,6 +203,24 @@ class Impl:
             if not ev[1]:
                 self.tr.release()
             self.closers.append(self.loop.create_task(self._close()))
+        elif k == 'X':
+            self.tr.pause_script = list(ev[1])
+            fresh = []
+            for a in ev[2]:
+                if a[0] == 'S':
+                    self.sent[a[2]] = a[3]
+                    self.frames[a[2]] = frame_of(a[2], a[3])
+                    t = self.loop.create_task(self._send(a[1], a[2], a[3]))
+                    self.tasks[a[2]] = t
+                    fresh.append((a[1], a[2], t))
+                elif a[0] == 'P':
+                    self.tr.env_pause()
+                elif a[0] == 'R':
+                    self.tr.env_resume()
+            self.idle()
+            for s_, m_, t in fresh:
+                if not t.done():
+                    self.obs.append(f'bl{s_}.{m_}')
         self.idle()
         self.tr.pause_script = []
         # translate the transport's own log of this step
@@ -259,6 +284,9 @@ def ser(ev):
         return f'R {_fl(ev[1])}'
     if k in ('A', 'C', 'G'):
         return f'{k} {int(ev[1])}'
+    if k == 'X':
+        acts = ','.join(f'{"B" if a[3] else "S"}.{a[1]}.{a[2]}' if a[0] == 'S' else a[0] for a in ev[2])
+        return f'X {_fl(ev[1])} {acts}'
     return k
 
 
@@ -275,6 +303,12 @@ def parse(text):
             evs.append(('R', fl(f[1])))
         elif f[0] in ('A', 'C', 'G'):
             evs.append((f[0], int(f[1])))
+        elif f[0] == 'X':
+            acts = []
+            for a in f[2].split(','):
+                b = a.split('.')
+                acts.append(('S', int(b[1]), int(b[2]), b[0] == 'B') if b[0] in 'SB' else (b[0],))
+            evs.append(('X', fl(f[1]), tuple(acts)))
         else:
             evs.append((f[0],))
     return evs
@@ -301,6 +335,15 @@ def key(rec):
     return (rec['obs'], tuple(rec['writes']), rec['cl'], rec['lo'], rec['rd'], rec['nb'], rec['t'])
 
 
+def sends_of(ev):
+    """(sender, msg, big) of every send a (possibly composite) event starts"""
+    if ev[0] == 'S':
+        return [(ev[1], ev[2], ev[4])]
+    if ev[0] == 'X':
+        return [(a[1], a[2], a[3]) for a in ev[2] if a[0] == 'S']
+    return []
+
+
 def oracle(events, recs):
     """from the property text, on the implementation's trace (observables only: the byte stream
     handed to the asyncio transport cut into lines, the transport's pause state at each write
@@ -308,8 +351,8 @@ def oracle(events, recs):
     bad = []
     sent, written, done = {}, [], {}
     for idx, (ev, rec) in enumerate(zip(events, recs)):
-        if ev[0] == 'S':
-            sent[ev[2]] = (ev[1], idx)
+        for s_, m_, _big in sends_of(ev):
+            sent[m_] = (s_, idx)
         for o in rec['obs']:
             if o.startswith('wac'):
                 pass
@@ -417,13 +460,29 @@ ALPHABET_QUICK = [('S0',), ('S1',), ('S2p',), ('P',), ('R',), ('Rp',), ('L',), (
 # of message 1 / 2, graceful close with a stalled peer, one time step beyond max_send_delay
 ALPHABET_2 = [('S',), ('Sp',), ('B',), ('Bp',), ('P',), ('R',), ('Rp',), ('G',), ('C1',), ('C2',),
               ('A25',), ('L',)]
+# family 3: things that happen back to back before the loop runs again.  SR / SpR: a sender is
+# already runnable when the buffer drains (it runs before the woken writers; p: its write
+# re-fills the buffer); RS: the sender becomes runnable just after the resume; RP: the buffer
+# fills again before any woken writer has run
+ALPHABET_3 = [('S',), ('Sp',), ('P',), ('R',), ('SR',), ('SpR',), ('RS',), ('RP',), ('G',), ('A25',)]
+COMPOSITE = {'SR': ((), 'SR'), 'SpR': ((True,), 'SR'), 'RS': ((), 'RS'), 'RP': ((), 'RP')}
 
 
 def expand(seq):
     """turn letter sequences into concrete events with fresh message ids"""
     evs, mid = [], 0
     for (x,) in seq:
-        if x[0] in 'SB':
+        if x in COMPOSITE:
+            flags, letters = COMPOSITE[x]
+            acts = []
+            for c in letters:
+                if c == 'S':
+                    mid += 1
+                    acts.append(('S', mid % 3, mid, False))
+                else:
+                    acts.append((c,))
+            evs.append(('X', flags, tuple(acts)))
+        elif x[0] in 'SB':
             mid += 1
             p = x.endswith('p')
             sender = int(x[1]) if x[1:2].isdigit() else mid % 3
@@ -466,8 +525,21 @@ def random_trace(r):
             # mostly a message that exists (and may be blocked), sometimes one that does not
             evs.append(('C', r.randint(max(1, mid - 3), mid) if mid and r.random() < 0.9
                         else r.randint(1, 20)))
-        elif k < 0.88:
+        elif k < 0.87:
             evs.append(('G', 1 if r.random() < 0.8 else 0))
+        elif k < 0.93:
+            # back to back, the loop runs only afterwards
+            acts = []
+            for _ in range(r.randint(2, 4)):
+                c = r.random()
+                if c < 0.4:
+                    mid += 1
+                    acts.append(('S', r.randrange(4), mid, r.random() < 0.2))
+                elif c < 0.6:
+                    acts.append(('P',))
+                else:
+                    acts.append(('R',))
+            evs.append(('X', tuple(r.random() < 0.4 for _ in range(r.randint(0, 4))), tuple(acts)))
         else:
             evs.append(('A', r.choice([1, 5, 10, 19, 20, 21, 40])))
     return evs
@@ -513,10 +585,21 @@ def evaluate(ctx, jobs, res):
         res.count('write_calls', sum(o.startswith('w') and not o.startswith('wac') for o in allobs))
         res.count('frames_on_stream', sum(len(r['frames']) for r in recs))
         res.count('stream_bytes', sum(r['bytes'] for r in recs))
-        res.count('sends_small', sum(1 for e in evs if e[0] == 'S' and not e[4]))
-        res.count('sends_big', sum(1 for e in evs if e[0] == 'S' and e[4]))
-        res.count('big_frames_on_stream', sum(1 for e in evs if e[0] == 'S' and e[4]
-                                              and any(e[2] in r['frames'] for r in recs)))
+        snd = [x for e in evs for x in sends_of(e)]
+        res.count('sends_small', sum(1 for x in snd if not x[2]))
+        res.count('sends_big', sum(1 for x in snd if x[2]))
+        res.count('big_frames_on_stream', sum(1 for x in snd if x[2]
+                                              and any(x[1] in r['frames'] for r in recs)))
+        res.count('batch_events', sum(1 for e in evs if e[0] == 'X'))
+        # a sender of a batch wrote in a step in which writers that had been blocked before
+        # the step were woken (it ran before / between / after them)
+        res.count('batch_sender_wrote_among_woken',
+                  sum(1 for j, (e, r) in enumerate(zip(evs, recs)) if e[0] == 'X' and j
+                      and recs[j - 1]['nb'] and 'rr' in r['obs']
+                      and any(x[1] in r['frames'] for x in sends_of(e))))
+        res.count('batch_woken_writers_blocked_again',
+                  sum(1 for j, (e, r) in enumerate(zip(evs, recs)) if e[0] == 'X' and j
+                      and 'rr' in r['obs'] and any(m in r['inflight'] for m in recs[j - 1]['inflight'])))
         res.count('blocked_senders', sum(o.startswith('bl') for o in allobs))
         res.count('timeouts', sum(o.startswith('to') for o in allobs))
         res.count('losses', sum(o == 'lost' for o in allobs))
@@ -553,12 +636,13 @@ def run(ctx):
     # obligation); the 12-letter family 2 only in the thorough tier (12^5 = 249k traces)
     maxlen = 5 if ctx.deep else 4
     maxlen2 = 5 if ctx.tier == 'thorough' else 4
+    maxlen3 = 5 if ctx.tier == 'thorough' else 4
     done = 0
     for ln in range(1, maxlen + 1):
         if res.failed and ln > 3:
             break
         jobs = []
-        for alphabet, mx in ((ALPHABET_QUICK, maxlen), (ALPHABET_2, maxlen2)):
+        for alphabet, mx in ((ALPHABET_QUICK, maxlen), (ALPHABET_2, maxlen2), (ALPHABET_3, maxlen3)):
             if ln > mx:
                 continue
             for i, s in enumerate(itertools.product(alphabet, repeat=ln)):
@@ -578,8 +662,10 @@ def run(ctx):
     evaluate(ctx, jobs, res)
     res['scopes']['generated'] = n
     res['scopes']['exhaustive'] = {'alphabets': [[a[0] for a in ALPHABET_QUICK],
-                                                 [a[0] for a in ALPHABET_2]],
-                                   'max_len': [min(done, maxlen), min(done, maxlen2)]}
+                                                 [a[0] for a in ALPHABET_2],
+                                                 [a[0] for a in ALPHABET_3]],
+                                   'max_len': [min(done, maxlen), min(done, maxlen2),
+                                               min(done, maxlen3)]}
     return res.finish(RULE, exhaustive=(done == maxlen))
 
 
